@@ -124,6 +124,18 @@ def interp_on(e, state, samples):
     return l + r if e["op"] == "+" else l - r if e["op"] == "-" else l * r
 
 
+def magnitude(e, state, samples):
+    """sum of the magnitudes of all terms of the expression (what a rounding error of the working precision is relative to)"""
+    if "leaf" in e:
+        return make_leaf(e["leaf"]).apply(state, samples.clone()).double().abs()
+    if "num" in e:
+        return abs(float(e["num"]))
+    if "neg" in e:
+        return magnitude(e["neg"], state, samples)
+    l, r = magnitude(e["l"], state, samples), magnitude(e["r"], state, samples)
+    return l * r if e["op"] == "*" else l + r
+
+
 def make_state(c):
     import qucumber
     from qucumber.nn_states import ComplexWaveFunction, DensityMatrix, PositiveWaveFunction
@@ -174,7 +186,8 @@ def check(c):
         gl = obs.apply(state, sl.clone()).double()
         wl = interp_on(e, state, sl)
         # integer batches make torch promote leaf values to float32 (long * 2.0 -> float32): single-precision tolerance here
-        require(bool(torch.all((gl - wl).abs() <= 1e-5 * wl.abs() + 1e-5)), "apply:value:integer-samples",
+        mg = magnitude(e, state, sl) + torch.zeros_like(wl)        # single-precision rounding is relative to the terms, not to a result that cancels
+        require(bool(torch.all((gl - wl).abs() <= 1e-5 * mg + 1e-5)), "apply:value:integer-samples",
                 "on an integer-dtype batch the composite differs from the same arithmetic applied to its leaves' values", got=gl.tolist(), want=wl.tolist(), symbol=str(obs))
     st_ = obs.statistics_from_samples(state, samples.clone())
     w = want.numpy()
